@@ -16,6 +16,10 @@ import (
 
 func isScripted(g *proto.GenScript) bool { return g.Impl == "new" || g.Impl == "nonew" }
 
+// hasKnownOutput: generators whose rendered output the driver knows: the scripted ones, and the probe,
+// which never renders anything (so a <base>.probe.go file can only come from somebody else's text).
+func hasKnownOutput(g *proto.GenScript) bool { return isScripted(g) || g.Impl == "probe" }
+
 func lookupRule(rules map[string]proto.Rule, pkg, typ string) proto.Rule {
 	if r, ok := rules[pkg+" "+typ]; ok {
 		return r
@@ -138,6 +142,8 @@ var posRe = regexp.MustCompile(`:\d+:\d+`)
 
 // checkRun evaluates every per-run oracle.
 func (x *Exec) checkRun(rec *StepRecord) {
+	nBefore := len(x.Viol)
+	defer x.checkInterrupted(rec, nBefore)
 	m := x.Sc.Module
 	run := rec.Op.Run
 	resp := rec.Resp
@@ -337,7 +343,7 @@ func (x *Exec) checkRun(rec *StepRecord) {
 		}
 		for gi := range run.Gens {
 			g := &run.Gens[gi]
-			if !isScripted(g) {
+			if !hasKnownOutput(g) {
 				continue
 			}
 			o := outcome(g, ip, resp.Events)
@@ -887,4 +893,109 @@ func contains(xs []string, s string) bool {
 		}
 	}
 	return false
+}
+
+// staticRendered says, from the spec and the script alone, whether generator g renders anything for
+// package pi: 1 yes, 0 no, -1 undetermined (an enabled type answers ErrIgnore: the previous file decides).
+func staticRendered(m *ModuleSpec, g *proto.GenScript, pi int, globals map[string][]string) int {
+	named, aliases := m.EnabledTypes(pi, g.Name, globals)
+	if g.NoAlias {
+		aliases = nil
+	}
+	ip := m.ImportPath(pi)
+	rendered := 0
+	look := func(rules map[string]proto.Rule, names []string, isNamed bool) bool {
+		for _, n := range names {
+			rule := lookupRule(rules, ip, n)
+			if isNamed && (rule.Ret == "ignore" || rule.Ret == "wrapped-ignore") {
+				return false
+			}
+			if partsNonEmpty(rule.Render) {
+				rendered = 1
+			}
+			for _, d := range rule.Defers {
+				if partsNonEmpty(d.Render) {
+					rendered = 1
+				}
+			}
+		}
+		return true
+	}
+	if !look(g.Rules, named, true) || !look(g.AliasRules, aliases, false) {
+		return -1
+	}
+	return rendered
+}
+
+// checkFinalState: C07-T5. In a history whose runs all use the same generators, once a fault-free All
+// run has succeeded every local package - regenerated or skipped as cached - holds exactly the files
+// its generators render: a cached package is one whose work was really done.
+func (x *Exec) checkFinalState() {
+	if x.wedged {
+		return
+	}
+	var last *StepRecord
+	for i := len(x.Steps) - 1; i >= 0; i-- {
+		if x.Steps[i].Op.Kind == "run" {
+			last = x.Steps[i]
+			break
+		}
+	}
+	if last == nil || last.Resp == nil || last.Killed || last.Resp.LoadErr != "" || last.Resp.ExecErr != "" || last.Resp.Panic != "" {
+		return
+	}
+	run := last.Op.Run
+	if !run.Args.All || len(run.Faults) > 0 {
+		return
+	}
+	m := x.Sc.Module
+	for _, pi := range last.Local {
+		for gi := range run.Gens {
+			g := &run.Gens[gi]
+			if !isScripted(g) {
+				continue
+			}
+			want := staticRendered(m, g, pi, run.Args.Globals)
+			if want < 0 {
+				continue
+			}
+			f := filepath.Join(m.Pkgs[pi].Dir, run.Args.Base+"."+g.Name+".go")
+			_, exists := last.Post[f]
+			x.Env.Stats.Add("probe/final-state-checked", 1)
+			switch {
+			case want == 1 && !exists:
+				x.violate("C07", "T5", "output-missing-in-final-state", fmt.Sprintf("%s (package executed in the last run: %v)", f, last.Executed[m.ImportPath(pi)]), nil)
+			case want == 0 && exists:
+				x.violate("C07", "T5", "stale-output-in-final-state", fmt.Sprintf("%s (package executed in the last run: %v)", f, last.Executed[m.ImportPath(pi)]), nil)
+			}
+		}
+	}
+}
+
+// checkInterrupted: C02-E6. The caller's context was cancelled while the run was in progress. gengo may
+// ignore that or fail with an error; what it may not do is return nil from a run it cut short - that
+// marks work as done that was never done.
+func (x *Exec) checkInterrupted(rec *StepRecord, nBefore int) {
+	if rec.Resp == nil || rec.Resp.ExecErr != "" || rec.Resp.LoadErr != "" || rec.Resp.Panic != "" {
+		return
+	}
+	cancelled := false
+	for _, f := range rec.Resp.Fired {
+		if strings.HasSuffix(f, ":cancel") {
+			cancelled = true
+		}
+	}
+	if !cancelled {
+		return
+	}
+	x.Env.Stats.Add("fault/cancel-fired", 1)
+	for _, v := range x.Viol[nBefore:] {
+		switch v.Key() {
+		case "C06/G1/enabled-type-not-generated", "C06/G2/enabled-alias-not-generated", "C07/T2/rendered-file-missing",
+			"C08/S1/skipped-without-sum-file", "C08/S1/skipped-without-entry", "C08/S1/skipped-although-hash-not-recorded",
+			"C08/S1/skipped-although-never-generated-for-this-content", "C08/S1/skipped-despite-force", "C08/S1/skipped-without-all":
+			x.violate("C02", "E6", "interrupted-run-reports-success", "the context was cancelled mid-run, Execute returned nil, but the run is incomplete: "+v.Key()+": "+v.Detail, nil)
+			return
+		}
+	}
 }
